@@ -88,7 +88,17 @@ def finish(res, src, sid):
                                                                 "demo_passes_without_change", "demo_cmd", "place")},
         checks=res.get("detections", {})), confirmed=res.get("confirmed", False), detected_by=res.get("detected_by", []),
         error=res.get("error"))
-    json.dump(meta, open(os.path.join(dst, "meta.json"), "w"), indent=1)
+    mp = os.path.join(dst, "meta.json")
+    if os.path.exists(mp):
+        try:
+            old = json.load(open(mp))
+            prev = old.get("history") or ("first evaluation: " + (("detected by " + ", ".join(old["detected_by"])) if old.get("detected_by")
+                                          else ("not confirmed (harness error)" if not old.get("confirmed") else "missed by " + ", ".join(old.get("what_was_run", {}).get("checks", {}).keys()))))
+            if old.get("detected_by") != meta["detected_by"] or old.get("history"):
+                meta["history"] = prev + "; checks strengthened since (see DESIGN.md 0.7)"
+        except Exception:
+            pass
+    json.dump(meta, open(mp, "w"), indent=1)
     print(json.dumps(dict(seed=sid, confirmed=meta["confirmed"], detected_by=meta["detected_by"], error=meta["error"],
                           detail={p: d.get("detail") for p, d in res.get("detections", {}).items()}))[:1500])
 
